@@ -28,6 +28,10 @@ ASSUMPTIONS = [
 
 
 def build_battery(spec):
+    if spec.get("ints"):
+        from .c14 import as_given
+
+        spec = dict(spec, cap=as_given(spec, spec["cap"]), init=as_given(spec, spec["init"]), maxp=as_given(spec, spec["maxp"]))
     if spec["model"] == "ideal":
         return Battery(spec["cap"], spec["init"], spec["maxp"])
     return Linear2StageBattery(
@@ -88,7 +92,12 @@ def prop(spec, rec):
             e_before = ev.energy_delivered
             soc_before = before / cap
             calls_before = feed.calls
-            evse.set_pilot(pilot, V, T)
+            if spec.get("ints"):
+                from .c14 import as_given
+
+                evse.set_pilot(as_given(spec, pilot), as_given(spec, V), as_given(spec, T))
+            else:
+                evse.set_pilot(pilot, V, T)
             rate = ev.current_charging_rate
             after = stored_charge(batt)
             power = batt.current_charging_power
@@ -111,6 +120,8 @@ def prop(spec, rec):
                 labels.add("reaches_full")
     if levels:
         labels.add("finite_rate_evse")
+    if spec.get("ints"):
+        labels.add("integer_arguments")
     if crossed:
         labels.add("crosses_transition")
     if big_noise:
@@ -128,7 +139,14 @@ def cases(draw):
     model = draw(st.sampled_from(["ideal", "cont", "cont", "step", "step"]))
     pilots = draw(st.lists(PILOT, min_size=1, max_size=30))
     levels = None
-    if draw(st.integers(0, 3)) == 0:
+    ints = draw(st.integers(0, 4)) == 0
+    if ints:
+        # whole numbers written as ints (208 V, 5 min, 32 A, 60 kWh)
+        cap = float(draw(st.sampled_from([8, 24, 60, 100])))
+        init = float(draw(st.sampled_from([0, 0, int(cap * 0.5), int(cap) - 1, int(cap)])))
+        maxp = float(draw(st.sampled_from([3, 7, 11, 50])))
+        pilots = [float(draw(st.sampled_from([0, 6, 8, 16, 32, 80]))) for _ in pilots]
+    elif draw(st.integers(0, 3)) == 0:
         # finite-rate EVSE: its levels are rounded pilots, the pilots sit up to 1e-3 A off them
         levels = sorted({round(p, 2) for p in pilots if p > 0} | {8.0})
         off = [0.0, -9e-4, 9e-4, -5e-4, 5e-4]
@@ -140,9 +158,10 @@ def cases(draw):
         "maxp": maxp,
         "tsoc": tsoc,
         "noise": 0 if model == "ideal" else draw(st.sampled_from([0, 0.05, 1, 5, 5])),
-        "V": draw(VOLT),
-        "T": draw(PERIOD),
+        "V": float(draw(st.sampled_from([120, 208, 240]))) if ints else draw(VOLT),
+        "T": float(draw(st.sampled_from([1, 5, 7, 15, 60]))) if ints else draw(PERIOD),
         "pilots": pilots,
+        "ints": ints,
         "levels": levels,
         "bad_resets": sorted(draw(st.sets(st.integers(0, 29), max_size=2))),
         "zs": draw(st.lists(Z, min_size=1, max_size=12)),
